@@ -24,13 +24,14 @@ import (
 // hook controller (H3): PRNG delays at named points; records the order of hook hits.
 
 type hookCtl struct {
-	mu     sync.Mutex
-	r      *rand.Rand
-	delay  map[string]int // point -> max delay in microseconds (0: none)
-	seq    []string
-	hits   map[string]int64
-	gate   func(name string, arg int64) // optional scenario-specific steering (must never block unboundedly)
-	active int32
+	mu         sync.Mutex
+	r          *rand.Rand
+	delay      map[string]int // point -> max delay in microseconds (0: none)
+	seq        []string
+	hits       map[string]int64
+	gate       func(name string, arg int64) // optional scenario-specific steering (must never block unboundedly)
+	active     int32
+	prngDelays int // PRNG delays injected since start()
 }
 
 const hookAlways = 1 << 20 // delay values at or above this mean "always", not "PRNG up to"
@@ -51,9 +52,12 @@ func init() {
 		d := 0
 		if mx := h.delay[name]; mx >= hookAlways {
 			d = mx - hookAlways // scripted: always hold this long at this point
-		} else if mx > 0 && h.r != nil {
+		} else if mx > 0 && h.r != nil && h.prngDelays < 400 {
+			// PRNG delays widen interleavings at the first few hundred points of a scenario; a point reached tens of
+			// thousands of times (a container of 40000 items) is not slept at every time
 			if h.r.Intn(3) == 0 {
 				d = h.r.Intn(mx + 1)
+				h.prngDelays++
 			}
 		}
 		g := h.gate
@@ -73,6 +77,7 @@ func (h *hookCtl) start(r *rand.Rand, delays map[string]int, gate func(string, i
 	h.delay = delays
 	h.seq = nil
 	h.gate = gate
+	h.prngDelays = 0
 	h.mu.Unlock()
 	atomic.StoreInt32(&h.active, 1)
 }
@@ -132,6 +137,7 @@ type rpcEnv struct {
 	mu       sync.Mutex
 	recv     []recvRec
 	pending  []pendingReq
+	mixed    bool           // answers travel in containers together with updates and service notes
 	sentCont map[int64]bool // msg_ids of content-related messages the server sent (alone or in containers)
 	acked    map[int64]bool
 	ackCount map[int64]int                                           // how many times each server msg_id was named in a msgs_ack
@@ -147,11 +153,14 @@ type envOpts struct {
 	Any     func(e *rpcEnv, cn *refserver.Conn, in *mtp.Inner) bool
 	// NoWarnings: the application did not ask for warnings (MTProto.Warnings stays nil)
 	NoWarnings bool
+	// Plain: no mixing of non-answer items into answer containers (workloads that count what they sent themselves)
+	Plain bool
 }
 
 func newRPCEnv(c *wk.Ctx, idx int, r *rand.Rand, o envOpts) (*rpcEnv, error) {
 	e := &rpcEnv{c: c, idx: idx, w: newWorld(c, idx), sentCont: map[int64]bool{}, acked: map[int64]bool{}, ackCount: map[int64]int{}, arrivals: map[uint64]int{}, onReq: o.Handler, onAny: o.Any, newReq: make(chan struct{}, 1024)}
 	e.srv = e.w.server(refserver.HandlerFunc(e.onMessage))
+	e.mixed = !o.Plain && idx%3 == 1
 	// the server's clock: now, 2038+ (message ids with the top bit set, as every server will produce then) or 1971
 	switch idx % 7 {
 	case 3:
@@ -314,6 +323,39 @@ func (e *rpcEnv) resultBody(p pendingReq, o wrapOpts) []byte {
 // sendGroup sends answers as one plain message (len 1 and !forceContainer) or as one container.
 func (e *rpcEnv) sendGroup(cn *refserver.Conn, bodies [][]byte, uids []uint64, forceContainer bool) {
 	salt := e.salt()
+	// a busy server bundles whatever it has for the client: updates and service notes travel in the same container,
+	// in front of, between and behind the answers
+	mixed := e.mixed && len(uids) > 0 && uids[0]%2 == 0
+	if mixed {
+		var items []refserver.Out
+		other := func(k uint64) refserver.Out {
+			id := e.srv.NextMsgID(3)
+			switch k % 3 {
+			case 0: // an update (content-related)
+				e.mu.Lock()
+				e.sentCont[id] = true
+				e.mu.Unlock()
+				return refserver.Out{MsgID: id, SeqNo: cn.NextSeq(true), Body: append(append(le32(0x78d4dec1), le32(0x7084a7be)...), le32(uint32(k))...)}
+			case 1: // msg_new_detailed_info answer_msg_id bytes status
+				return refserver.Out{MsgID: id, SeqNo: cn.NextSeq(false), Body: append(append(append(le32(0x809db6df), le64(k|1)...), le32(10)...), le32(0)...)}
+			}
+			return refserver.Out{MsgID: id, SeqNo: cn.NextSeq(false), Body: refserver.Pong(int64(k), int64(k>>3))}
+		}
+		items = append(items, other(uids[0]>>8))
+		for i, b := range bodies {
+			id := e.srv.NextMsgID(1)
+			e.mu.Lock()
+			e.sentCont[id] = true
+			e.mu.Unlock()
+			items = append(items, refserver.Out{MsgID: id, SeqNo: cn.NextSeq(true), Body: b})
+			if (uids[i]>>4)%3 == 0 {
+				items = append(items, other(uids[i]>>12))
+			}
+		}
+		e.c.Count("containers.mixed_with_non_answers", 1)
+		cn.SendEncrypted(refserver.Out{MsgID: e.srv.NextMsgID(1), SeqNo: cn.NextSeq(false), Body: refserver.Container(items)}, salt, "container", map[string]interface{}{"n": len(items), "uids": fmt.Sprint(uids), "mixed": true})
+		return
+	}
 	if len(bodies) == 1 && !forceContainer {
 		id := e.srv.NextMsgID(1)
 		e.mu.Lock()
@@ -470,7 +512,16 @@ func checkStamp(uid uint64, kind string, res interface{}) (bool, string) {
 		if !ok {
 			return false, fmt.Sprintf("%T", res)
 		}
-		return len(v) == 2 && uint64(v[0]) == uid && uint64(v[1]) == st, fmt.Sprint(v)
+		n := bigLen(uid)
+		if len(v) != 2+n || uint64(v[0]) != uid || uint64(v[1]) != st {
+			return false, wk.Short(fmt.Sprint(v), 120)
+		}
+		for i := 0; i < n; i++ {
+			if uint64(v[2+i]) != bigElem(st, i) {
+				return false, fmt.Sprintf("%d elements, element %d is not the server's", len(v), 2+i)
+			}
+		}
+		return true, fmt.Sprintf("[%d %d] +%d", v[0], v[1], n)
 	case "vector-object":
 		v, ok := res.([]*telegram.ReceivedNotifyMessage)
 		if !ok {
